@@ -134,3 +134,52 @@ package codec
 //@   assert at return#7 float32: out(enc) == old(out(enc)) + ftoa(float64(vt), 32)
 //@   assert at return#8 float64: out(enc) == old(out(enc)) + ftoa(vt, 64)
 //@   ensures append: hasPrefix(out(enc), old(out(enc))) && enc.b == old(enc.b)
+
+// ---- nil safety of the decoder (C06) ---------------------------------------------------------------
+// A decoder always has its token source and codec; a codec always has its reflector (NewCodec).
+//@ type *decoder invariant d: d != nil && d.jd != nil && d.codec != nil && d.codec.refl != nil
+//@ type *Codec invariant c: c != nil && c.refl != nil
+// a resolver that reports no error returns a message type (protoregistry contract)
+//@ func (MessageTypeResolver).FindMessageByName
+//@   modifies nothing
+//@   ensures result1 == nil ==> result0 != nil
+
+// the values the decoder is handed are usable (callers get them from successful j5reflect calls)
+//@ func (*decoder).decodeValue
+//@   requires arg: prop != nil
+//@ func (*decoder).decodeObject
+//@   requires arg: object != nil
+//@ func (*decoder).decodeObjectProperty
+//@   requires arg: prop != nil
+//@ func (*decoder).decodeObjectInner
+//@   requires arg: object != nil
+//@ func (*decoder).decodeOneof
+//@   requires arg: oneof != nil
+//@ func (*decoder).decodeOneofProperty
+//@   requires arg: prop != nil
+//@ func (*decoder).decodeOneofInner
+//@   requires arg: oneof != nil
+//@ func (*decoder).decodeScalar
+//@   requires arg: prop != nil
+//@ func (*decoder).decodeEnum
+//@   requires arg: prop != nil
+//@ func (*decoder).decodeAny
+//@   requires arg: prop != nil
+//@ func (*decoder).decodeMapProperty
+//@   requires arg: prop != nil
+//@ func (*decoder).decodeMapField
+//@   requires arg: field != nil
+//@ func (*decoder).decodeArrayProperty
+//@   requires arg: prop != nil
+//@ func (*decoder).decodeArrayFieldValue
+//@   requires arg: field != nil
+//@ func (*Codec).decodeRoot
+//@   requires arg: root != nil
+//@ func propertyAtPath
+//@   requires arg: root != nil
+//@   loop 0 invariant root != nil
+//@   ensures nonnil: result1 == nil ==> result0 != nil
+// every constructor of fieldError in this package sets err (newFieldError, unexpectedTokenError,
+// parent, passUpError); the value is only reached through the error interface
+//@ func (fieldError).Error
+//@   requires e.err != nil
